@@ -82,11 +82,17 @@ class PathEval:
                 t = ("arg", l)
             else:
                 t = ("unknown", "_%d" % l)
+        first = True
         for p in pl.get("p", []):
             if p == "*":
                 continue
             if isinstance(p, dict):
                 if "f" in p:
+                    if first and ("fld", l, p["f"]) in env:
+                        t = env[("fld", l, p["f"])]
+                        first = False
+                        continue
+                    first = False
                     t = self.project(t, p)
                 elif "dc" in p:
                     t = ("downcast", t, p.get("v", p["dc"]))
@@ -173,10 +179,13 @@ class PathEval:
                     ops.append(("unknown", "uninit"))
                 ops[idx] = term
                 env[lhs["l"]] = ("agg", base[1], base[2], tuple(ops))
-            else:
+            elif base is None and not (1 <= lhs["l"] <= self.body.argc):
                 ops = [("unknown", "uninit")] * (idx + 1)
                 ops[idx] = term
                 env[lhs["l"]] = ("agg", "partial", None, tuple(ops))
+            else:
+                # field write into a parameter / opaque value: remember the override, keep the rest of the value intact
+                env[("fld", lhs["l"], idx)] = term
         # deeper writes are ignored (terms stay conservative)
 
     # --------------------------------------------------------------- paths
